@@ -6,6 +6,7 @@ the form the finders of Model/Finders.lean consume (`LandmarkFact`, `LitAfterLoo
 import RegexVerif.Model.LoopFacts
 import RegexVerif.Lemmas.Facts
 import RegexVerif.Lemmas.Finders
+import RegexVerif.Lemmas.SetFacts
 
 namespace RegexVerif.Lemmas.LoopFacts
 open RegexVerif RegexVerif.Spec RegexVerif.Finders RegexVerif.LoopFacts RegexVerif.Facts RegexVerif.Lemmas.Finders
@@ -674,11 +675,10 @@ theorem loop_then_rest (e : Env) (k : Nat) (p first : Pat) (rest : List Pat) (P 
   rw [q1, show st.pos + (i - st.pos) = i by omega] at this
   exact this
 
-/-- **the required-landmark chain computed from the pattern is a fact about every match** -/
-theorem chainOf_fact (e : Env) (k : Nat) (p : Pat) (sc : SymChain) (h : chainOf k p = some sc) :
-    ∃ l ls, sc.landmarks = l :: ls ∧
-      LandmarkFact (sc.loop.test e) (l.map (SymAlt.toLm e)) (lmOf e ls) e.text
-        (fun i => (attempt e p false i).bind (fun st => lastCap st.caps 0)) := by
+/-- **the required-landmark chain computed from the pattern is present at the start of every success** -/
+theorem chainOf_at (e : Env) (k : Nat) (p : Pat) (sc : SymChain) (h : chainOf k p = some sc) :
+    ∃ l ls, sc.landmarks = l :: ls ∧ ∀ st st', st' ∈ m e p false st →
+      LandmarkAt (sc.loop.test e) (l.map (SymAlt.toLm e)) (lmOf e ls) e.text st.pos := by
   unfold chainOf at h
   cases hs : spine (k - 1) (unwrap p) with
   | nil => rw [hs] at h; simp at h
@@ -699,14 +699,38 @@ theorem chainOf_fact (e : Env) (k : Nat) (p : Pat) (sc : SymChain) (h : chainOf 
           simp only [Option.some.injEq] at h
           subst h
           refine ⟨l, ls, rfl, ?_⟩
-          intro p0 hp0 hne
-          cases hat : attempt e p false p0 with
-          | none => simp [hat] at hne
-          | some stA =>
-            obtain ⟨y, hy, _, _⟩ := attempt_success e p false p0 stA hat
-            obtain ⟨a, a1, a2, a3⟩ := loop_then_rest e (k - 1) p first rest P lo hs hl _ y hy
-            obtain ⟨c, alt, c1, c2, c3, c4, c5⟩ := collect_first e rest l ls a y.pos hc a3
-            exact ⟨a, c, alt.toLm e, a1, c2, a2, c3, List.mem_map_of_mem c1, c4, c5⟩
+          intro st y hy
+          obtain ⟨a, a1, a2, a3⟩ := loop_then_rest e (k - 1) p first rest P lo hs hl st y hy
+          obtain ⟨c, alt, c1, c2, c3, c4, c5⟩ := collect_first e rest l ls a y.pos hc a3
+          exact ⟨a, c, alt.toLm e, a1, c2, a2, c3, List.mem_map_of_mem c1, c4, c5⟩
+
+/-- a statement about the start position of every success holds at every successful attempt position -/
+theorem at_attempt (e : Env) (p : Pat) (F : Nat → Prop) (hF : ∀ st st', st' ∈ m e p false st → F st.pos)
+    (p0 : Nat) (hne : (attempt e p false p0).bind (fun st => lastCap st.caps 0) ≠ none) : F p0 := by
+  cases hat : attempt e p false p0 with
+  | none => simp [hat] at hne
+  | some stA =>
+    obtain ⟨y, hy, _, _⟩ := attempt_success e p false p0 stA hat
+    exact hF _ y hy
+
+/-- … and so does a statement about the start of every success of the body of a leading positive lookahead
+    (`newFindOptimizations` publishes the facts of that body when the pattern itself yields nothing) -/
+theorem look_attempt (e : Env) (p b : Pat) (kf : Bool) (h : SetFacts.leadLook p = (some b, kf)) (F : Nat → Prop)
+    (hF : ∀ st st', st' ∈ m e b false st → F st.pos)
+    (p0 : Nat) (hne : (attempt e p false p0).bind (fun st => lastCap st.caps 0) ≠ none) : F p0 := by
+  apply at_attempt e p F _ p0 hne
+  intro st st' hm
+  obtain ⟨st0, h0, hne0⟩ := (RegexVerif.SetFacts.leadLook_ok e p st st' hm).1 b kf h
+  cases hb0 : m e b false st0 with
+  | nil => exact absurd hb0 hne0
+  | cons y ys => rw [← h0]; exact hF st0 y (by rw [hb0]; simp)
+
+theorem chainOf_fact (e : Env) (k : Nat) (p : Pat) (sc : SymChain) (h : chainOf k p = some sc) :
+    ∃ l ls, sc.landmarks = l :: ls ∧
+      LandmarkFact (sc.loop.test e) (l.map (SymAlt.toLm e)) (lmOf e ls) e.text
+        (fun i => (attempt e p false i).bind (fun st => lastCap st.caps 0)) := by
+  obtain ⟨l, ls, hl, hat⟩ := chainOf_at e k p sc h
+  exact ⟨l, ls, hl, fun p0 _ hne => at_attempt e p _ hat p0 hne⟩
 
 /-! ### dropping landmarks from the tail of a chain keeps the fact -/
 
@@ -777,12 +801,45 @@ theorem predRun_reach (e : Env) : ∀ (items : List Pat) (x y : Nat), Reach e it
         simpa [Nat.add_assoc, Nat.add_comm 1] using this
     | _ => simp [predRun] at hi
 
-/-- **the literal-after-loop record computed from the pattern is a fact about every match**: from the
-    attempt position a run of the loop's test leads to a position where the character tests hold in order -/
-theorem lalOf_fact (e : Env) (k : Nat) (p : Pat) (sl : SymLal) (h : lalOf k p = some sl) :
-    ∀ p0, p0 ≤ e.text.length → (attempt e p false p0).bind (fun st => lastCap st.caps 0) ≠ none →
-      ∃ kk, p0 ≤ kk ∧ (∀ j, p0 ≤ j → j < kk → memAt (sl.loop.test e) e.text j = true) ∧
-        ∀ i (hi : i < sl.lit.length), memAt ((sl.lit[i]'hi).test e) e.text (kk + i) = true := by
+theorem firstIter_reach (e : Env) (items : List Pat) (x y : Nat) (h : Reach e items x y) :
+    ∃ y', Reach e (firstIter items) x y' := by
+  have hsame : firstIter items = items → ∃ y', Reach e (firstIter items) x y' := fun heq => ⟨y, by rw [heq]; exact h⟩
+  cases items with
+  | nil => exact hsame rfl
+  | cons it its =>
+    cases it with
+    | quant lz lo hi body =>
+      have hgen : (∀ Q, body ≠ .chr Q) → ∃ y', Reach e (firstIter (.quant lz lo hi body :: its)) x y' := by
+        intro hnc
+        have hdef : firstIter (.quant lz lo hi body :: its) =
+            if 0 < lo then (leaves 64 body).dropWhile isGap else .quant lz lo hi body :: its := by
+          cases body with
+          | chr Q => exact absurd rfl (hnc Q)
+          | _ => rfl
+        rw [hdef]
+        by_cases hpos : 0 < lo
+        · rw [if_pos hpos]
+          obtain ⟨st, st', h1, h2, _⟩ := h
+          obtain ⟨j, hc, hj, _⟩ := quant_chain e lz lo hi body false st st' h2
+          cases hc with
+          | zero => omega
+          | @succ j' _ y1 _ hy _ =>
+            exact ⟨y1.pos, dropWhile_gap_reach e _ _ _ (by rw [← h1]; exact leaves_reach e 64 body st y1 hy)⟩
+        · rw [if_neg hpos]; exact ⟨y, h⟩
+      cases body with
+      | chr Q => exact hsame rfl
+      | _ => exact hgen (by intro Q hq; cases hq)
+    | _ => exact hsame rfl
+
+/-- the literal after the loop is present from position `p0`: a run of the loop's test, then the character
+    tests in order -/
+def LalAt (e : Env) (sl : SymLal) (p0 : Nat) : Prop :=
+  ∃ kk, p0 ≤ kk ∧ (∀ j, p0 ≤ j → j < kk → memAt (sl.loop.test e) e.text j = true) ∧
+    ∀ i (hi : i < sl.lit.length), memAt ((sl.lit[i]'hi).test e) e.text (kk + i) = true
+
+/-- **the literal-after-loop record computed from the pattern is present at the start of every success** -/
+theorem lalOf_at (e : Env) (k : Nat) (p : Pat) (sl : SymLal) (h : lalOf k p = some sl) :
+    ∀ st st', st' ∈ m e p false st → LalAt e sl st.pos := by
   unfold lalOf at h
   cases hs : spine (k - 1) (unwrap p) with
   | nil => rw [hs] at h; simp at h
@@ -795,54 +852,57 @@ theorem lalOf_fact (e : Env) (k : Nat) (p : Pat) (sl : SymLal) (h : lalOf k p = 
       obtain ⟨P, lo⟩ := Pl
       rw [hl] at h
       simp only [] at h
-      intro p0 hp0 hne
-      cases hat : attempt e p false p0 with
-      | none => simp [hat] at hne
-      | some stA =>
-        obtain ⟨y, hy, _, _⟩ := attempt_success e p false p0 stA hat
-        obtain ⟨a, a1, a2, a3⟩ := loop_then_rest e (k - 1) p first rest P lo hs hl _ y hy
-        have hitems := dropWhile_gap_reach e _ _ _ (flatMap_leaves_reach e 64 rest a y.pos a3)
-        generalize (rest.flatMap (leaves 64)).dropWhile isGap = items at h hitems
-        cases hpr : predRun items with
-        | cons Q Qs =>
-          rw [hpr] at h
-          simp only [Option.some.injEq] at h
-          subst h
-          refine ⟨a, a1, a2, ?_⟩
-          intro i hi
-          have := predRun_reach e items a y.pos hitems i (by rw [hpr]; exact hi)
-          simpa [hpr] using this
-        | nil =>
-          rw [hpr] at h
-          simp only [] at h
-          cases items with
-          | nil => simp at h
-          | cons it its =>
-            cases it with
-            | quant lz lo2 hi2 body =>
-              cases body with
-              | chr Q =>
-                simp only [] at h
-                by_cases hpos : 0 < lo2
-                · rw [if_pos hpos] at h
-                  simp only [Option.some.injEq] at h
-                  subst h
-                  obtain ⟨s1, s1', q1, q2, _⟩ := hitems
-                  obtain ⟨j, j1, _, _, j4⟩ := loop_run e lz lo2 hi2 Q s1 s1' q2
-                  refine ⟨a, a1, a2, ?_⟩
-                  intro i hi
-                  have hi0 : i = 0 := by simpa using hi
-                  subst hi0
-                  have := j4 0 (by omega)
-                  simpa [q1] using this
-                · rw [if_neg hpos] at h; simp at h
-              | _ => simp at h
+      intro st y hy
+      obtain ⟨a, a1, a2, a3⟩ := loop_then_rest e (k - 1) p first rest P lo hs hl st y hy
+      obtain ⟨y', hitems⟩ := firstIter_reach e _ _ _ (dropWhile_gap_reach e _ _ _ (flatMap_leaves_reach e 64 rest a y.pos a3))
+      generalize firstIter ((rest.flatMap (leaves 64)).dropWhile isGap) = items at h hitems
+      cases hpr : predRun items with
+      | cons Q Qs =>
+        rw [hpr] at h
+        simp only [Option.some.injEq] at h
+        subst h
+        refine ⟨a, a1, a2, ?_⟩
+        intro i hi
+        have := predRun_reach e items a y' hitems i (by rw [hpr]; exact hi)
+        simpa [hpr] using this
+      | nil =>
+        rw [hpr] at h
+        simp only [] at h
+        cases items with
+        | nil => simp at h
+        | cons it its =>
+          cases it with
+          | quant lz lo2 hi2 body =>
+            cases body with
+            | chr Q =>
+              simp only [] at h
+              by_cases hpos : 0 < lo2
+              · rw [if_pos hpos] at h
+                simp only [Option.some.injEq] at h
+                subst h
+                obtain ⟨s1, s1', q1, q2, _⟩ := hitems
+                obtain ⟨j, j1, _, _, j4⟩ := loop_run e lz lo2 hi2 Q s1 s1' q2
+                refine ⟨a, a1, a2, ?_⟩
+                intro i hi
+                have hi0 : i = 0 := by simpa using hi
+                subst hi0
+                have := j4 0 (by omega)
+                simpa [q1] using this
+              · rw [if_neg hpos] at h; simp at h
             | _ => simp at h
+          | _ => simp at h
+
+theorem lalOf_fact (e : Env) (k : Nat) (p : Pat) (sl : SymLal) (h : lalOf k p = some sl) :
+    ∀ p0, p0 ≤ e.text.length → (attempt e p false p0).bind (fun st => lastCap st.caps 0) ≠ none → LalAt e sl p0 :=
+  fun p0 _ hne => at_attempt e p _ (lalOf_at e k p sl h) p0 hne
+
+/-- the prefix stands where a run of the loop's test from `p0` ends -/
+def PrefAt (e : Env) (P : Pred) (w : List Nat) (p0 : Nat) : Prop :=
+  ∃ kk, p0 ≤ kk ∧ (∀ j, p0 ≤ j → j < kk → memAt (P.test e) e.text j = true) ∧ ∃ t, e.text.drop kk = w ++ t
 
 /-- **the prefix of what follows the loop** (as `tryFindPrefix` computes it) stands where the loop's run ends -/
-theorem lalPrefixOf_fact (e : Env) (p : Pat) (P : Pred) (w : List Nat) (h : lalPrefixOf p = some (P, w)) :
-    w ≠ [] ∧ ∀ p0, p0 ≤ e.text.length → (attempt e p false p0).bind (fun st => lastCap st.caps 0) ≠ none →
-      ∃ kk, p0 ≤ kk ∧ (∀ j, p0 ≤ j → j < kk → memAt (P.test e) e.text j = true) ∧ ∃ t, e.text.drop kk = w ++ t := by
+theorem lalPrefixOf_at (e : Env) (p : Pat) (P : Pred) (w : List Nat) (h : lalPrefixOf p = some (P, w)) :
+    w ≠ [] ∧ ∀ st st', st' ∈ m e p false st → PrefAt e P w st.pos := by
   unfold lalPrefixOf at h
   cases hu : unwrap p with
   | seq first R =>
@@ -860,26 +920,21 @@ theorem lalPrefixOf_fact (e : Env) (p : Pat) (P : Pred) (w : List Nat) (h : lalP
         simp only [Option.some.injEq, Prod.mk.injEq] at h
         obtain ⟨rfl, rfl⟩ := h
         refine ⟨by simpa [List.isEmpty_iff] using hw, ?_⟩
-        intro p0 hp0 hne
-        cases hat : attempt e p false p0 with
-        | none => simp [hat] at hne
-        | some stA =>
-          obtain ⟨y, hy, _, _⟩ := attempt_success e p false p0 stA hat
-          obtain ⟨z, hz1, hz2⟩ := unwrap_mem e p _ y hy
-          rw [hu] at hz1
-          obtain ⟨mid, m1, m2⟩ := seq_mem e first R _ z hz1
-          obtain ⟨lz, hq⟩ := unboundedLoop_some first Q lo hl
-          obtain ⟨z1, y1, y2⟩ := unwrap_mem e first _ mid m1
-          rw [hq] at y1
-          obtain ⟨j, _, _, j3, j4⟩ := loop_run e lz lo none Q _ z1 y1
-          simp only [] at j3 j4
-          obtain ⟨t, ht, _⟩ := leadingPrefix_ok e (fun r => [r]) R mid z m2
-          refine ⟨mid.pos, by omega, ?_, t, ?_⟩
-          · intro i i1 i2
-            have := j4 (i - p0) (by omega)
-            rw [show p0 + (i - p0) = i by omega] at this
-            exact this
-          · simpa [bytesFrom] using ht
+        intro st y hy
+        obtain ⟨z, hz1, hz2⟩ := unwrap_mem e p st y hy
+        rw [hu] at hz1
+        obtain ⟨mid, m1, m2⟩ := seq_mem e first R st z hz1
+        obtain ⟨lz, hq⟩ := unboundedLoop_some first Q lo hl
+        obtain ⟨z1, y1, y2⟩ := unwrap_mem e first st mid m1
+        rw [hq] at y1
+        obtain ⟨j, _, _, j3, j4⟩ := loop_run e lz lo none Q st z1 y1
+        obtain ⟨t, ht, _⟩ := leadingPrefix_ok e (fun r => [r]) R mid z m2
+        refine ⟨mid.pos, by omega, ?_, t, ?_⟩
+        · intro i i1 i2
+          have := j4 (i - st.pos) (by omega)
+          rw [show st.pos + (i - st.pos) = i by omega] at this
+          exact this
+        · simpa [bytesFrom] using ht
   | _ => rw [hu] at h; simp at h
 
 end RegexVerif.Lemmas.LoopFacts
